@@ -179,6 +179,14 @@ def format_only_param(prog, g, fkey, pname, depth=0, seen=None):
     return True, "string building only"
 
 
+def _reference_functions():
+    from ..alpha import reference
+    return {f"{rel}::{q}" for rel, m in reference().items() for q in m.get("__all_functions__", [])}
+
+
+REFERENCE_FUNCTIONS = _reference_functions()
+
+
 def check(prog, rep):
     rep.explanation = (
         "information-flow classification of every read of the formatting options, effect bound of the output-stage "
@@ -262,6 +270,10 @@ def check(prog, rep):
                 continue
             if key in ("main.py::print_pqr", "main.py::print_pdb"):
                 r1.ok(k, "output stage", where)
+                continue
+            callers_ = [c_ for c_ in g.callers(key) if c_ != key]
+            if callers_ and all(c_ in ("main.py::print_pqr", "main.py::print_pdb") for c_ in callers_) and key not in REFERENCE_FUNCTIONS:
+                r1.ok(k, f"output stage (a helper called only by {sorted(set(callers_))})", where)
                 continue
             p = parent(n)
             if isinstance(p, ast.keyword) or (isinstance(p, ast.Call) and n in p.args):
